@@ -160,6 +160,13 @@ metadata: {name: dr-a, namespace: ns1}
 spec:
   host: a.example.com
   trafficPolicy: {loadBalancer: {simple: ROUND_ROBIN}, tls: {mode: ISTIO_MUTUAL}}
+`, `
+apiVersion: networking.istio.io/v1
+kind: DestinationRule
+metadata: {name: dr-a, namespace: ns1}
+spec:
+  host: a.example.com
+  trafficPolicy: {loadBalancer: {consistentHash: {httpHeaderName: x-user}}}
 `)
 	addCfg("sidecar-ns1", `
 apiVersion: networking.istio.io/v1
@@ -303,15 +310,16 @@ spec:
 		svc(corev1.ServicePort{Name: "http", Port: 80, TargetPort: intstr.FromInt32(8080), Protocol: corev1.ProtocolTCP},
 			corev1.ServicePort{Name: "tcp-x", Port: 9000, TargetPort: intstr.FromInt32(9000), Protocol: corev1.ProtocolTCP}),
 	}})
-	pod := func(ip string) object {
+	pod := func(name, ip, sa string) object {
 		return object{Kube: &corev1.Pod{
-			ObjectMeta: metav1.ObjectMeta{Name: "kb-1", Namespace: "ns1", Labels: map[string]string{"app": "kb"}, CreationTimestamp: ts(41)},
-			Spec:       corev1.PodSpec{ServiceAccountName: "kb-sa", NodeName: "node1"},
+			ObjectMeta: metav1.ObjectMeta{Name: name, Namespace: "ns1", Labels: map[string]string{"app": "kb"}, CreationTimestamp: ts(41)},
+			Spec:       corev1.PodSpec{ServiceAccountName: sa, NodeName: "node1"},
 			Status: corev1.PodStatus{PodIP: ip, PodIPs: []corev1.PodIP{{IP: ip}}, Phase: corev1.PodRunning,
 				Conditions: []corev1.PodCondition{{Type: corev1.PodReady, Status: corev1.ConditionTrue}}},
 		}}
 	}
-	universe = append(universe, uobj{Name: "k8s-pod", Variants: []object{pod("10.1.1.1")}, Static: true})
+	universe = append(universe, uobj{Name: "k8s-pod", Variants: []object{pod("kb-1", "10.1.1.1", "kb-sa")}, Static: true})
+	universe = append(universe, uobj{Name: "k8s-pod2", Variants: []object{pod("kb-2", "10.1.1.2", "kb-sa2")}, Static: true})
 	t, http := true, "http"
 	p8080 := int32(8080)
 	tcp := corev1.ProtocolTCP
@@ -319,7 +327,7 @@ spec:
 		var eps []discoveryv1.Endpoint
 		for _, ip := range ips {
 			eps = append(eps, discoveryv1.Endpoint{Addresses: []string{ip}, Conditions: discoveryv1.EndpointConditions{Ready: &t},
-				TargetRef: &corev1.ObjectReference{Kind: "Pod", Name: "kb-1", Namespace: "ns1"}})
+				TargetRef: &corev1.ObjectReference{Kind: "Pod", Name: map[string]string{"10.1.1.1": "kb-1", "10.1.1.2": "kb-2"}[ip], Namespace: "ns1"}})
 		}
 		return object{Kube: &discoveryv1.EndpointSlice{
 			ObjectMeta:  metav1.ObjectMeta{Name: "kb-s1", Namespace: "ns1", Labels: map[string]string{discoveryv1.LabelServiceName: "kb"}, CreationTimestamp: ts(42)},
@@ -328,7 +336,7 @@ spec:
 			Ports:       []discoveryv1.EndpointPort{{Name: &http, Port: &p8080, Protocol: &tcp}},
 		}}
 	}
-	universe = append(universe, uobj{Name: "k8s-slice", Variants: []object{slice("10.1.1.1"), slice()}})
+	universe = append(universe, uobj{Name: "k8s-slice", Variants: []object{slice("10.1.1.1"), slice(), slice("10.1.1.1", "10.1.1.2")}})
 }
 
 // state: for each universe object -1 (absent) or the variant present
@@ -416,10 +424,10 @@ func (s ustate) after(o op) ustate {
 var bases = map[string]func() ustate{
 	"empty": emptyState,
 	"rich": func() ustate {
-		return stateWith("se-a", "se-a2", "se-b", "vs-a", "dr-a", "gateway", "vs-gw", "pa-ns1", "authz", "envoyfilter", "se-w", "we-w", "k8s-svc", "k8s-pod", "k8s-slice")
+		return stateWith("se-a", "se-a2", "se-b", "vs-a", "dr-a", "gateway", "vs-gw", "pa-ns1", "authz", "envoyfilter", "se-w", "we-w", "k8s-svc", "k8s-pod", "k8s-pod2", "k8s-slice")
 	},
 	"scoped": func() ustate {
-		return stateWith("se-a", "se-a2", "se-b", "vs-a", "dr-a", "sidecar-ns1", "gateway", "vs-gw", "pa-ns1", "authz", "envoyfilter", "se-w", "we-w", "k8s-svc", "k8s-pod", "k8s-slice")
+		return stateWith("se-a", "se-a2", "se-b", "vs-a", "dr-a", "sidecar-ns1", "gateway", "vs-gw", "pa-ns1", "authz", "envoyfilter", "se-w", "we-w", "k8s-svc", "k8s-pod", "k8s-pod2", "k8s-slice")
 	},
 }
 
